@@ -21,7 +21,7 @@ META = {
         'C15.PURE-PROPS - the lazy properties of computechi2 and pcomp neither assign attributes nor write in place into attribute '
         'arrays (reading them in any order gives the same values); C15.PINV - computechi2 forms the pseudo-inverse from every singular value, with no absolute cut-off; C15.SYNW - the synthetic weights of pca_solve never become 0 for a pixel masked in every spectrum; C15.USEMASK - pca_solve returns outmask.sum(0), the count of good '
         'spectra per pixel. NOT decided: every optimality, monotonicity, normalisation and projection statement (numerical).'),
-    'floors': {'C15.HMF-IMMUT': 2, 'C15.SEED': 2, 'C15.EIG-ALIGN': 2, 'C15.COV': 2, 'C15.PURE-PROPS': 10, 'C15.USEMASK': 1, 'C15.PINV': 2, 'C15.SYNW': 1},
+    'floors': {'C15.DOF': 1, 'C15.NORM': 1, 'C15.HMF-IMMUT': 2, 'C15.SEED': 2, 'C15.EIG-ALIGN': 2, 'C15.COV': 2, 'C15.PURE-PROPS': 10, 'C15.USEMASK': 1, 'C15.PINV': 2, 'C15.SYNW': 1},
 }
 
 SPEC1D = 'pydl/pydlspec2d/spec1d.py'
@@ -228,7 +228,35 @@ def check_synw(ctx, repo):
                             'cannot be judged from this form' % src(init[0].value)[:60])
 
 
+def check_dof_norm(ctx, repo):
+    """C15.DOF: degrees of freedom count the points with a POSITIVE weight; C15.NORM: a component's rms is taken over its own,
+    current length."""
+    f = repo.func(MATH, 'computechi2.dof')
+    ctx.cover(f)
+    rets = [r for r in walk_local(f.node) if isinstance(r, ast.Return) and r.value is not None]
+    ctx.need(rets, 'computechi2.dof: return not found')
+    cmps = [c for c in ast.walk(rets[0].value) if isinstance(c, ast.Compare) and 'sqivar' in src(c)]
+    ok = len(cmps) == 1 and ((isinstance(cmps[0].ops[0], ast.Gt) and try_fold(cmps[0].comparators[0]) == 0 and 'sqivar' in src(cmps[0].left)) or
+                             (isinstance(cmps[0].ops[0], ast.Lt) and try_fold(cmps[0].left) == 0) or
+                             (isinstance(cmps[0].ops[0], ast.NotEq) and try_fold(cmps[0].comparators[0]) == 0))
+    ctx.check('C15.DOF', ok and 'nstar' in src(rets[0].value), f, rets[0], 'dof = #(sqivar > 0) - nstar', 
+              msg='dof is `%s`: points with zero weight are counted as data (or the parameter count is not subtracted)' % src(rets[0].value)[:70],
+              construct='dof ' + src(rets[0].value)[:70])
+    g = repo.func(SPEC1D, 'HMF.normbase')
+    ctx.cover(g)
+    rets = [r for r in walk_local(g.node) if isinstance(r, ast.Return) and r.value is not None]
+    ctx.need(rets, 'HMF.normbase: return not found')
+    v = rets[0].value
+    own = any(isinstance(c, ast.Call) and call_name(c) == 'mean' and 'self.g' in src(c) for c in ast.walk(v)) or \
+        any(isinstance(b, ast.BinOp) and isinstance(b.op, ast.Div) and 'self.g.shape' in src(b.right) for b in ast.walk(v)) or \
+        any(isinstance(c, ast.Call) and call_name(c) in ('std', 'var') and 'self.g' in src(c) for c in ast.walk(v))
+    ctx.check('C15.NORM', own, g, rets[0], 'the rms of a component is taken over the current length of self.g (%s)' % src(v)[:60],
+              msg='normbase divides by a stored size (`%s`) instead of the current length of self.g: iterate() trims zero-weight columns, after which '
+                  'the components are no longer normalised to unit rms' % src(v)[:70], construct='normbase ' + src(v)[:70])
+
+
 def run(ctx):
+    check_dof_norm(ctx, ctx.repo)
     check_pinv(ctx, ctx.repo)
     check_synw(ctx, ctx.repo)
     n = check_hmf(ctx, ctx.repo)
